@@ -226,6 +226,24 @@ class Executor:
                 fname = inp['stem'] + suffix
                 self.write_file(os.path.join(self.cwd, fname), inp['text'])
                 arg = fname if not call.get('dotslash') else './' + fname
+            elif pk in ('dotdot', 'symlink', 'symdir'):
+                # the same file addressed through '..', a symbolic link to the
+                # file, or a symbolic link to a directory followed by '..'
+                d = self.new_input_dir()
+                real = os.path.join(d, inp['stem'] + suffix)
+                self.write_file(real, inp['text'])
+                os.makedirs(os.path.join(d, 'sub'), exist_ok=True)
+                if pk == 'dotdot':
+                    arg = os.path.join(d, 'sub', '..', inp['stem'] + suffix)
+                elif pk == 'symlink':
+                    ld = self.new_input_dir()
+                    arg = os.path.join(ld, inp['stem'] + suffix)
+                    os.symlink(real, arg)
+                else:
+                    self.nlink = getattr(self, 'nlink', 0) + 1
+                    link = os.path.join(self.cwd, 'lnk%03d' % self.nlink)
+                    os.symlink(os.path.join(d, 'sub'), link)
+                    arg = os.path.join(os.path.basename(link), '..', inp['stem'] + suffix)
             elif pk == 'zip':
                 d = self.new_input_dir()
                 zp = os.path.join(d, 'arch.zip')
